@@ -184,7 +184,7 @@ def pi_obligations(check, units):
 
 def run(check):
     tier = check.tier
-    types = ['double'] if tier == 'quick' else ['double', 'float', 'long double']
+    types = ['double', 'float', 'long double']
     check.checker_cmd = 'clang++ -ast-dump=json | phqv lower | phqv symex (REAL / NOISY) -> z3 -T:60 qfnra-nlsat ; goto-cc | goto-instrument --dfcc --enforce-contract ConvertInPlace --replace-call-with-contract Conversions<..>::*Standard | cbmc'
     check.assume('REAL: machine arithmetic treated as exact real arithmetic; PI is one symbolic constant with 3.14159265358979323846 < PI < 3.14159265358979323847 used by code and oracle alike')
     check.assume('NOISY: standard model of rounding fl(a op b) = (a op b)(1+d), |d| <= u (no underflow/overflow), literals not representable in T carry one (1+d); bound (k+1) u (|A x| + |B|) with k = number of roundings in the body')
@@ -199,7 +199,7 @@ def run(check):
     pi_obligations(check, units)
     tasks = []
     for T in types:
-        t, n = leaf_tasks(check, units, T, quick_noisy=(T == 'double' or tier == 'thorough'))
+        t, n = leaf_tasks(check, units, T, quick_noisy=True)
         tasks += t
         check.log('%s: %d leaf bodies, %d obligations' % (T, n, len(t)))
     obs = pmap(lambda t: t.run(), tasks)
